@@ -9,6 +9,8 @@ import (
 	"errors"
 	"fmt"
 	"io"
+	"os"
+	"os/exec"
 	"strings"
 
 	minify "github.com/tdewolff/minify/v2"
@@ -80,6 +82,18 @@ type entry struct {
 	call func(d corpus.Doc, w io.Writer, r io.Reader) error
 }
 
+// cmdRegistry: external commands in the four ways a command can take its input and deliver its output
+func cmdRegistry() *minify.M {
+	m := minify.New()
+	m.AddCmd("text/css", exec.Command("cat"))
+	m.AddCmd("text/html", exec.Command("cat", "$in"))
+	m.AddCmd("application/javascript", exec.Command("sh", "-c", "cat > $out"))
+	m.AddCmd("application/json", exec.Command("cp", "$in", "$out"))
+	m.AddCmd("image/svg+xml", exec.Command("cat"))
+	m.AddCmd("text/xml", exec.Command("cat", "$in"))
+	return m
+}
+
 var entries = []entry{
 	{"direct", func(d corpus.Doc, w io.Writer, r io.Reader) error {
 		return corpus.Direct(d.Type).Minify(corpus.Registry(), w, r, nil)
@@ -90,6 +104,14 @@ var entries = []entry{
 	// the media type parameter that HTML and SVG hosts pass for attribute values and nested documents
 	{"M.Minify;inline=1", func(d corpus.Doc, w io.Writer, r io.Reader) error {
 		return corpus.Registry().Minify(d.Type+";inline=1", w, r)
+	}},
+	// minifiers that are external commands (AddCmd), reading stdin or $in and writing stdout or $out
+	{"M.Minify/AddCmd", func(d corpus.Doc, w io.Writer, r io.Reader) error {
+		t := d.Type
+		if i := strings.IndexByte(t, ';'); i >= 0 {
+			t = t[:i]
+		}
+		return cmdRegistry().Minify(t, w, r)
 	}},
 }
 
@@ -146,6 +168,13 @@ func (j job) config() string {
 
 // Run executes C14.
 func Run(c *core.Check) {
+	// command minifiers create temporary files: they go to a directory of this run, which is removed at the end whatever the
+	// tree under test does with them
+	if scratch, err := os.MkdirTemp("", "verif-cmd-"); err == nil {
+		old := os.Getenv("TMPDIR")
+		os.Setenv("TMPDIR", scratch)
+		defer func() { os.Setenv("TMPDIR", old); os.RemoveAll(scratch) }()
+	}
 	c.Rule = "for every corpus document of every media type (valid ones with embedded content and ones whose minification fails late) and every entry point: the reader fails after k bytes for EVERY k in 0..len (reads of 1/7/all bytes; error returned alone or together with the last bytes; the error is a plain one, one that wraps io.EOF, one that wraps another io error); the writer fails from its k-th call on for EVERY k in 1..calls+1 (returning 0 or a short count), also for every proper prefix of every valid document taken as a document of its own; and both for all pairs on a subset; through Reader/Writer/ResponseWriter every interleaving (controlled scheduler). Non-trivial = a fault was actually hit before the call returned"
 	c.Assumptions = []string{"a writer that fails keeps failing (a writer that recovers is outside the statement)", "wrappers: same scheduler assumptions as C12"}
 	docs := append(append([]corpus.Doc{}, corpus.Valid...), corpus.Failing...)
